@@ -398,6 +398,9 @@ def install(prog):
             nn, dd = nv // g, dv // g
             if dd < 0: nn, dd = -nn, -dd
             return mk_ok(Agg('BigRatio', None, [Big(nn), Big(dd)]))
+        if is_sym(dv) and is_sym(nv) and it.ghost.get('opaque_ratio_literals'):
+            # the harness only asks WHETHER the text is a number: keep the ratio unreduced, is_integer answers both ways
+            return mk_ok(Agg('BigRatio', None, [Big(nv), Big(dv)]))
         if is_sym(dv):
             dv = it.concretize(dv, limit=16)          # tiny domains only (a one-digit denominator of a symbolic text)
             if dv >= 1 << (BW - 1): dv -= 1 << BW
@@ -433,6 +436,7 @@ def install(prog):
     def _(it, m, a):
         r = deref(a[0]); n, d = r.f[0].v, r.f[1].v
         if not is_sym(d): return d == 1          # ratios are kept reduced with a positive denominator (Ratio::new)
+        if it.ghost.get('opaque_ratio_literals'): return it.choose(2) == 1
         if not is_sym(n) and not is_sym(d): return n % d == 0
         if not is_sym(d) and abs(d) == 1: return True
         if not is_sym(d) and abs(d) & (abs(d) - 1) == 0:
@@ -454,6 +458,10 @@ def install(prog):
         elif not is_sym(d) and abs(d) & (abs(d) - 1) == 0:
             from .models_num import big_op
             q = big_op(it, 'Div', Big(n), Big(d)).v
+        elif it.ghost.get('opaque_ratio_literals'):
+            it.fresh_n += 1
+            q = z3.BitVec('bigratio_int_%d_%d' % (len(it.taken), it.fresh_n), BW)      # value not claimed in this harness
+            it.assume(z3.And(q >= -(1 << 66), q <= (1 << 66)))
         else:
             raise Unsupported('BigRational::to_integer with a symbolic or odd denominator')
         if m.group(1) == 'i64':
